@@ -238,10 +238,10 @@ func validInputSize(min, max int, tv reflect.Value, isHasEqual ...bool) (isLessT
 			}
 			return
 		}
-		if l < min {
+		if l <= min {
 			isLessThan = true
 		}
-		if l > max {
+		if l >= max {
 			isMoreThan = true
 		}
 	}
